@@ -276,6 +276,9 @@ pub fn run(args: &Args) -> Report {
                 }
                 if let Ok(cfg) = serde_json::from_value::<StarkConfig>(j) {
                     check(rep, &cfg, &level, &format!("{} = {k}", path_str(l)));
+                    // also at level 0, so that an edit which lowers the security sum is not masked by
+                    // the security check itself
+                    check(rep, &cfg, &BigUint::from(0u8), &format!("{} = {k} (level 0)", path_str(l)));
                     rep.inc(&format!("field.{}", path_class(l)));
                 }
             }
